@@ -22,7 +22,8 @@ def run(tier="quick", seed=0, replay=None):
     if replay:
         print(open(replay).read())
         return 1
-    core.lean_stage(chk, "C02")
+    core.lean_stage(chk, "C02", extra_props=["E2Eb"])
+    core.soft_bridge(chk)
     from harness import cover
     from harness import fingerprint
     fingerprint.direct(chk, ['ixai/explainer/pfi.py', 'ixai/explainer/base.py', 'ixai/utils/tracker/multi_value.py', 'ixai/imputer/marginal_imputer.py', 'ixai/imputer/default_imputer.py'])
